@@ -359,9 +359,24 @@ def check_cll(rep, tier, seed):
         n = 30000 if tier == "quick" else 300000
         cs = list(mod.case_stream(rng, "quick" if tier == "quick" else "thorough", n))
         header = getattr(mod, "HEADER", "")
-        forms = [(c["id"], c["form"]) for c in cs]
-        ra, pa = C.run_batches(plain, mod.IMPORTS, header, forms, batch=1000, timeout=180, heap="64M/512M")
-        rb, pb = C.run_batches(cll, mod.IMPORTS, header, forms, batch=1000, timeout=180, heap="64M/512M")
+        # stage 1: a probe of 2000 cases in small files with a short timeout; a build that is broken outright
+        # (many differences / hangs) is reported from the probe alone instead of multiplying per-file timeouts
+        ra, rb = {}, {}
+        probe = cs[:2000]
+        for build, r in ((plain, ra), (cll, rb)):
+            rr, _ = C.run_batches(build, mod.IMPORTS, header, [(c["id"], c["form"]) for c in probe], batch=250,
+                                  timeout=60, heap="64M/512M")
+            r.update(rr)
+        bad = sum(1 for c in probe if ra.get(c["id"]) is None or rb.get(c["id"]) is None
+                  or ra[c["id"]].status != "ok" or rb[c["id"]].status != "ok" or ra[c["id"]].text != rb[c["id"]].text)
+        if bad > 40:
+            rep.extra["cll_stopped_after_probe_" + name] = bad
+            cs = probe
+        else:
+            forms = [(c["id"], c["form"]) for c in cs[2000:]]
+            for build, r in ((plain, ra), (cll, rb)):
+                rr, _ = C.run_batches(build, mod.IMPORTS, header, forms, batch=1000, timeout=120, heap="64M/512M")
+                r.update(rr)
         ndiff = 0
         for c in cs:
             a, b = ra.get(c["id"]), rb.get(c["id"])
